@@ -4,8 +4,8 @@ import XrsVerif.Proofs.ILang
   Proofs/ILFocal.lean): sequencing with a known intermediate state, environments, up-counting ranges with
   arbitrary bounds.
 -/
-namespace XrsVerif.IL
-open XrsVerif
+namespace XrsVerif.IL.Sd
+open XrsVerif XrsVerif.IL
 variable {F : Type} [Fl F]
 set_option linter.unusedSectionVars false
 
@@ -166,4 +166,4 @@ theorem inRange_ge (i : Int) (n : Nat) (h : (n : Int) ≤ i) : inRange i n = fal
   simp only [this, if_false]
   simp; omega
 
-end XrsVerif.IL
+end XrsVerif.IL.Sd
